@@ -10,6 +10,7 @@ require (
 
 require (
 	github.com/pkg/errors v0.9.1 // indirect
+	github.com/sbinet/npyio v0.8.0 // indirect
 	github.com/spf13/cast v1.5.1 // indirect
 	golang.org/x/exp v0.0.0-20230321023759-10a507213a29 // indirect
 	gopkg.in/yaml.v3 v3.0.1 // indirect
